@@ -69,7 +69,7 @@ Proof.
     + constructor.
   - intros sid id. cbn. split; [tauto|]. intros (r & H & _). discriminate.
   - intros id r c H. discriminate.
-  - constructor; cbn; discriminate.
+  - constructor; cbn; try discriminate. constructor.
   - constructor; cbn; discriminate.
 Qed.
 
@@ -207,7 +207,7 @@ Lemma core_first : forall now d cid opts r callee_id next callee,
     cget (d_invs d) (callee_id, idgen_next (s_invgen callee)) = None ->
     calls_core (call_first_state now d cid opts r callee_id next callee).
 Proof.
-  intros now d cid opts r callee_id next callee [A B C D E F G] Hb Hi.
+  intros now d cid opts r callee_id next callee [A B C D E F G K] Hb Hi.
   remember (callee_id, idgen_next (s_invgen callee)) as ikey eqn:Eik.
   remember (first_inv d cid callee_id callee r opts) as fi eqn:Efi.
   assert (Hfc : inv_call fi = cid) by (rewrite Efi; reflexivity).
@@ -247,6 +247,7 @@ Proof.
       rewrite nget_nset, N.eqb_refl. intros H2; inversion H2. congruence.
     + intros H Ht. pose proof (F _ _ _ H Ht) as Hle.
       destruct (local_timer _ _ _); [|eauto]. rewrite nget_nset. keq'; [lia | eauto].
+  - destruct (local_timer _ _ _); [apply NoDup_keys_aset; auto using N.eqb_spec | exact K].
 Qed.
 
 Lemma core_chunk : forall now d cid ikey inv callee r p,
@@ -278,7 +279,7 @@ Proof.
   { intros t v Hne. rewrite E4, nget_nset. destruct (N.eqb_spec t (d_timergen d + 1)); [congruence|].
     rewrite ct_timers. destruct (inv_timer inv) as [t0|]; [|intros H; split; [exact H | discriminate]].
     destruct (N.eqb_spec t t0); [discriminate|]. intros H; split; [exact H | congruence]. }
-  destruct W as [A B C D E F G].
+  destruct W as [A B C D E F G K].
   constructor; rewrite ?E1, ?E2, ?E3, ?E5.
   - intros c k H. destruct (A _ _ H) as (i0 & Hi0 & Hc). rewrite cget_cset.
     destruct (pair_eqb_spec k ikey) as [->|Hk].
@@ -305,6 +306,8 @@ Proof.
     + intros H Ht Htm. pose proof (F _ _ _ H Ht) as Hle.
       assert (Hne : t <> d_timergen d + 1) by lia.
       destruct (Hold _ _ Hne Htm) as (H0 & _). eauto.
+  - rewrite E4. apply NoDup_keys_aset; auto using N.eqb_spec.
+    destruct (inv_timer inv); [cbn [cancel_timer]; dproj; apply NoDup_keys_adel; auto using N.eqb_spec | exact K].
 Qed.
 
 Lemma call_d0_side : forall d r next, calls_side_eq d (call_d0 d r next).
